@@ -125,13 +125,6 @@ pub mod rowan {
         pub fn text(&self) -> (r: SyntaxText)
             ensures r@ == self.text_spec()
         { unimplemented!() }
-
-        /// the child nodes, in order (text-level model: an abstract sequence of handles)
-        pub uninterp spec fn child_nodes_spec(&self) -> Seq<SyntaxNode>;
-        #[verifier::external_body]
-        pub fn children(&self) -> (r: super::VxIter<SyntaxNode>)
-            ensures r@ == self.child_nodes_spec()
-        { unimplemented!() }
     }
 }
 use rowan::{GreenNode, GreenNodeBuilder};
